@@ -68,7 +68,9 @@ ASSUMPTIONS = [
     "estimators that cannot run in this sandbox (soft dependencies, compiled extensions, sklearn-1.7 parameter validation) are covered by the static tie only",
 ]
 RULE = ("per runnable estimator (forecasters incl. composites, series / panel transformers, TSF/RISE/BOSS-family classifiers, TSF regressor) x containers "
-        "(Series/DataFrame, nested DataFrame/3D array, RangeIndex/Int64Index) x seeded data (outliers, NaN) x random interleavings of repeated apply-type calls "
+        "(every entry with an n_jobs parameter of its own or of a component is in the n_jobs clause and listed in the evidence histogram as n_jobs-clause=<entry>; tuners: grid and randomized search over "
+        "naive / pipeline / multiplexer forecasters with search spaces as a single dict, a list of dicts with different key sets and distributions, cv_results_ (params, mean scores, ranks), best_params_, "
+        "best_score_ compared as the observation `inspect`; n_jobs=None runs sequentially) x (Series/DataFrame, nested DataFrame/3D array, RangeIndex/Int64Index) x seeded data (outliers, NaN) x random interleavings of repeated apply-type calls "
         "on the original, on equal-parameter twins (n_jobs None/1/2/4, threading backend), on a freshly fitted twin per call, on a pickled copy and on a deep copy, with ANOTHER object of the "
         "class (equal parameters / default-constructed) fitted on other data and used in between; copies: observable state (cutoff, data, stored horizon values and kind) compared at restore time, "
         "predict() without a horizon on every copy, pickled copy run through update + predict against a fresh twin; forecasters: horizon at fit relative or absolute, "
@@ -302,6 +304,29 @@ def table():
     T["fc:tuned_grid_par"] = dict(fam="fc", mode="o", njobs=True, make=lambda rs, nj: ForecastingGridSearchCV(
         NaiveForecaster(strategy="mean"), cv=SlidingWindowSplitter(fh=[1], window_length=5),
         param_grid={"window_length": [2, 3, 4]}, n_jobs=nj))
+    # tuners in the "whatever n_jobs" clause: grid and randomized search over naive / pipeline / multiplexer forecasters,
+    # search spaces of every shape (single dict, LIST of dicts with different key sets, distributions)
+    from sktime.forecasting.compose import TransformedTargetForecaster, MultiplexForecaster
+    from sktime.transformations.series.detrend import Detrender as _Detr
+    import scipy.stats as _st
+    _cv = lambda: SlidingWindowSplitter(fh=[1, 2], window_length=8, step_length=3)
+    _pipe = lambda: TransformedTargetForecaster([("d", _Detr(PolynomialTrendForecaster(degree=1))), ("f", NaiveForecaster())])
+    _mux = lambda: MultiplexForecaster([("a", NaiveForecaster()), ("b", PolynomialTrendForecaster())], selected_forecaster="a")
+    TU = lambda mk: dict(fam="fc", mode="o", njobs=True, tuner=True, make=mk)
+    T["fc:tune_grid_naive_list"] = TU(lambda rs, nj: ForecastingGridSearchCV(NaiveForecaster(), cv=_cv(), n_jobs=nj, param_grid=[
+        {"strategy": ["mean"], "window_length": [3, 6]}, {"strategy": ["drift", "last"]}]))
+    T["fc:tune_grid_pipeline_list"] = TU(lambda rs, nj: ForecastingGridSearchCV(_pipe(), cv=_cv(), n_jobs=nj, param_grid=[
+        {"f__strategy": ["mean"], "f__window_length": [3, 5]}, {"d__forecaster__degree": [2]}, {"f__strategy": ["drift"]}]))
+    T["fc:tune_grid_multiplex_list"] = TU(lambda rs, nj: ForecastingGridSearchCV(_mux(), cv=_cv(), n_jobs=nj, param_grid=[
+        {"selected_forecaster": ["a"], "a__strategy": ["mean"], "a__window_length": [3, 6]}, {"selected_forecaster": ["a", "b"]}]))
+    T["fc:tune_grid_pipeline_dict"] = TU(lambda rs, nj: ForecastingGridSearchCV(_pipe(), cv=_cv(), n_jobs=nj, param_grid={
+        "f__strategy": ["mean", "last"], "d__forecaster__degree": [1, 2]}))
+    T["fc:tune_random_naive_list"] = TU(lambda rs, nj: ForecastingRandomizedSearchCV(NaiveForecaster(), cv=_cv(), n_jobs=nj, n_iter=4, random_state=rs,
+        param_distributions=[{"strategy": ["mean"], "window_length": [3, 4, 5, 6]}, {"strategy": ["drift", "last"]}]))
+    T["fc:tune_random_dist"] = TU(lambda rs, nj: ForecastingRandomizedSearchCV(NaiveForecaster(strategy="mean"), cv=_cv(), n_jobs=nj, n_iter=3, random_state=rs,
+        param_distributions={"window_length": _st.randint(2, 7)}))
+    for k in ("fc:tuned", "fc:tuned_random", "fc:tuned_grid_par"):
+        T[k]["tuner"] = True
     try:
         from sktime.forecasting.ets import AutoETS
         T["fc:autoets"] = dict(fam="fc", mode="o", make=lambda rs, nj: AutoETS())
@@ -456,6 +481,20 @@ FH_OPTIONAL = ["A", "B", "I", "X", "a", "i", "x"]
 RS_FORMS = ["int", "zero", "npint", "rsobj"]
 
 
+def has_n_jobs(key):
+    """does the entry have an n_jobs parameter, its own or of a component the table's `make` hands n_jobs to?"""
+    e = table()[key]
+    if "nj" not in e:
+        try:
+            e1, e2 = e["make"](1, None), e["make"](1, 2)
+            p1, p2 = e1.get_params(deep=True), e2.get_params(deep=True)
+            e["nj"] = "n_jobs" in e1.get_params(deep=False) or any(
+                k.split("__")[-1] == "n_jobs" and p1.get(k) != p2.get(k) for k in p2)
+        except Exception:
+            e["nj"] = False
+    return e["nj"]
+
+
 def has_random_state(key):
     """does the table entry pass its random_state on to some (sub-)estimator parameter?"""
     e = table()[key]
@@ -571,6 +610,19 @@ def _err(ex):
     return canon_err(ex).replace(":", ".")
 
 
+def inspect_results(est):
+    """what a fitted tuner reports about its search: per candidate (in order) the parameters, the mean score and the rank;
+    then best_params_ and best_score_.  Parameters are the row labels, numbers the values."""
+    res = est.cv_results_
+    mean_col = [c for c in res.columns if c.startswith("mean_") and not c.endswith("_time")][0]
+    rank_col = [c for c in res.columns if c.startswith("rank_")][0]
+    labels = [json.dumps({k: repr(v) for k, v in sorted(p.items())}) for p in res["params"]]
+    rows = [[float(m), float(r)] for m, r in zip(res[mean_col], res[rank_col])]
+    labels.append("best:" + json.dumps({k: repr(v) for k, v in sorted(est.best_params_.items())}))
+    rows.append([float(est.best_score_), float(est.best_index_)])
+    return pd.DataFrame(rows, index=pd.Index(labels), columns=["mean_score", "rank"])
+
+
 def est_state(est):
     """what of a fitted FORECASTER a later call can depend on (the stored horizon apart): cutoff, remembered
     series, fitted flag, fitted window length"""
@@ -609,7 +661,9 @@ def _call(fn, *a, **k):
     import joblib
     with warnings.catch_warnings():
         warnings.simplefilter("ignore")
-        with joblib.parallel_backend("threading"):
+        # n_jobs=1 for the context: an estimator whose n_jobs is None then runs SEQUENTIALLY (joblib's meaning of None
+        # outside any context); without it the context default (-1) would run "n_jobs=None" on all cores
+        with joblib.parallel_backend("threading", n_jobs=1):
             return fn(*a, **k)
 
 
@@ -701,7 +755,7 @@ def run_seq(c):
             obs["calls"].append([inst, method, rid, "T", est])
             pending.append((key, est))
             continue
-        if not hasattr(est, method):
+        if method != "inspect" and not hasattr(est, method):
             obs["calls"].append([inst, method, rid, "T", "E.nomethod"])
             firsts.setdefault(key, ("E.nomethod", "E.nomethod", False))
             continue
@@ -712,14 +766,16 @@ def run_seq(c):
             if pre == "u":
                 _call(est.update, _update_batch(c), update_params=False)
                 st0 = est_state(est)
-            if isfc:
+            if method == "inspect":
+                res = inspect_results(est)
+            elif isfc:
                 res = _call(getattr(est, method)) if default_call else _call(getattr(est, method), a[0])
             else:
                 res = _call(getattr(est, method), *a)
             err = None
         except Exception as ex:
             res, err = None, _err(ex)
-        if isfc and not default_call and e["mode"] == "o":
+        if isfc and not default_call and e["mode"] == "o" and method != "inspect":
             last_fh[inst] = base
         flag = args_flag(before, snap_args(a))
         if flag == "T" and isfc:
@@ -761,7 +817,7 @@ def _obs(c):
 
 
 def _aid(method, argid):
-    return {"predict": "p", "predict_proba": "q", "transform": "t", "inverse_transform": "i"}[method] + argid
+    return {"predict": "p", "predict_proba": "q", "transform": "t", "inverse_transform": "i", "inspect": "s"}[method] + argid
 
 
 def show_seq(obs):
@@ -969,7 +1025,7 @@ def _parse_seq(out):
     return fit, calls
 
 
-_MNAME = {"p": "predict", "q": "predict_proba", "t": "transform", "i": "inverse_transform"}
+_MNAME = {"p": "predict", "q": "predict_proba", "t": "transform", "i": "inverse_transform", "s": "inspect"}
 
 
 def oracle(c, out):
@@ -1095,6 +1151,8 @@ def features(c, out):
     if k == "seq":
         e = table()[c["est"]]
         f += ["est=" + c["est"], "fam=" + e["fam"], "cont=" + c["cont"]]
+        if has_n_jobs(c["est"]):
+            f.append("n_jobs-clause=" + c["est"])
         if "rsform" in c:
             f.append("random_state=" + c["rsform"])
             if e.get("no_rsobj"):
@@ -1130,7 +1188,8 @@ def features(c, out):
 
 
 # =============================================================================== generators
-SLOW = {"clf:boss", "clf:boss_even", "clf:cboss_even", "clf:muse", "clf:stsf", "pt:shapelets", "fc:red_forest", "clf:cboss", "clf:rise", "pt:fitted_param", "fc:tuned_grid_par", "fc:tuned", "fc:tuned_random"}
+SLOW = {"fc:tune_grid_naive_list", "fc:tune_grid_pipeline_list", "fc:tune_grid_multiplex_list", "fc:tune_grid_pipeline_dict",
+        "fc:tune_random_naive_list", "fc:tune_random_dist", "clf:boss", "clf:boss_even", "clf:cboss_even", "clf:muse", "clf:stsf", "pt:shapelets", "fc:red_forest", "clf:cboss", "clf:rise", "pt:fitted_param", "fc:tuned_grid_par", "fc:tuned", "fc:tuned_random"}
 
 
 def _seq_case(rng, key, cont, quick, variant=0, rsform=None, compact=False):
@@ -1138,7 +1197,7 @@ def _seq_case(rng, key, cont, quick, variant=0, rsform=None, compact=False):
     fam = e["fam"]
     est = e["make"](1, None)
     methods = [m for m in METHODS[fam] if hasattr(est, m)]
-    has_nj = "n_jobs" in est.get_params(deep=False)
+    has_nj = has_n_jobs(key)
     slow = quick and key in SLOW
     fitfh = "A"
     if fam == "fc":
@@ -1177,6 +1236,10 @@ def _seq_case(rng, key, cont, quick, variant=0, rsform=None, compact=False):
     for cp in ("pk", "dc"):
         for m, a in [rng.choice(fresh), rng.choice(pairs)]:
             extra.append([cp, m, a])
+    if e.get("tuner"):
+        # the search itself (cv_results_: params, mean scores, ranks; best_params_, best_score_) on every copy
+        for inst in ["o", "o"] + twins + ["pk", "fr"]:
+            extra.append([inst, "inspect", fitfh])
     # a FRESHLY fitted twin per call ('fr'): the reference no earlier call can have disturbed
     if fam == "fc":
         frp = list(pairs) if not (slow or compact) else rng.sample(pairs, min(2, len(pairs)))
@@ -1301,8 +1364,8 @@ def gen_cases(tier, rng):
             continue
         for cont in e["conts"]:
             for v in range(reps):
-                cases.append(_seq_case(rng, key, cont, quick, variant=v + rng.randrange(2) if e["fam"] != "fc" else v))
-            if e["fam"] == "fc" and quick:
+                cases.append(_seq_case(rng, key, cont, quick, variant=v + rng.randrange(2) if (e["fam"] != "fc" or (quick and e.get("tuner"))) else v))
+            if e["fam"] == "fc" and quick and not e.get("tuner"):
                 # both index kinds for forecasters even in the quick tier (the adapters' index replacement needs Int64Index)
                 cases.append(_seq_case(rng, key, cont, quick, variant=1))
         if quick and has_random_state(key):
